@@ -131,6 +131,7 @@ where
     crossbeam_utils::thread::scope(|scope| {
         let handle = scope.spawn::<_, Result<(), Er>>(move |_| {
             let mut reader = reader_init()?;
+            vpoint!(ReaderInitDone);
 
             let mut pool = scoped_threadpool::Pool::new(n_threads);
 
@@ -145,20 +146,26 @@ where
                         // ParallelRecordsets dropped -> stop
                         return;
                     };
+                    vpoint!(ReaderGotEmpty);
 
                     let done_send = done_send.clone();
 
                     if let Some(res) = reader.fill_data(&mut data) {
+                        vpoint!(ReaderFilled);
                         match res {
                             Ok(_) => {
+                                vpoint!(ReaderBeforeExecute);
                                 // expensive work carried out by func()
                                 pool_scope.execute(move || {
                                     let out = work(&mut data);
+                                    vpoint!(WorkerWorkDone);
 
                                     done_send.send(Some(Ok((data, out)))).ok();
+                                    vpoint!(WorkerSent);
                                 });
                             }
                             Err(e) => {
+                                vpoint!(ReaderErrBeforeSend);
                                 done_send.send(Some(Err(e))).ok();
                                 break;
                             }
@@ -168,17 +175,21 @@ where
                     }
                 }
 
+                vpoint!(ReaderBeforeJoin);
                 pool_scope.join_all();
 
+                vpoint!(ReaderBeforeSendNone);
                 done_send.send(None).ok();
             });
             Ok(())
         });
+        vpoint!(MainSpawned);
 
         for _ in 0..queue_len {
             if empty_send.send(dataset_init()?).is_err() {
                 break;
             }
+            vpoint!(MainSentEmpty);
         }
 
         let mut rsets = ParallelRecordsets {
@@ -187,8 +198,10 @@ where
             current_recordset: dataset_init()?,
         };
 
+        vpoint!(MainBeforeFunc);
         let out = func(&mut rsets);
         ::std::mem::drop(rsets);
+        vpoint!(MainDroppedRsets);
 
         handle.join().unwrap()?;
         Ok(out)
@@ -219,8 +232,10 @@ where
         self.done_recv.recv().unwrap().map(move |result| {
             match result {
                 Ok((r, o)) => {
+                    vpoint!(ConsumerRecv);
                     let prev_rset = ::std::mem::replace(&mut self.current_recordset, r);
                     self.empty_send.send(prev_rset).ok(); // error: channel closed is not a problem, happens after calling stop()
+                    vpoint!(ConsumerRecycled);
                     Ok((&mut self.current_recordset, o))
                 }
                 Err(e) => Err(e),
